@@ -293,6 +293,9 @@ func (e *agentEngine) Setup(r *Run) {
 	r.Sim.RaceCheck = true
 	r.Sim.MapMode = r.Choose(2, "mapmode")
 	r.StayWeight = []int{1, 1, 3, 10}[r.Choose(4, "stay")]
+	if !e.seq && r.Pct(25, "pct-policy") {
+		r.Policy = 1
+	}
 
 	base := time.Date(2020, 1, 1, 0, 0, 0, 0, time.UTC)
 	for i := 0; i < 8; i++ {
